@@ -984,10 +984,22 @@ fn gen_c03(tier: &str, rng: &mut Rng) -> Vec<Case> {
             cfg.pad = true;
         }
         if rng.chance(1, 6) {
-            cfg.max_wrap = Some(rng.range(1, 30));
+            cfg.max_wrap = Some(if rng.chance(1, 3) { rng.range(1, 3) } else { rng.range(1, 30) });
+        }
+        if rng.chance(1, 4) {
+            cfg.overflow = true;
         }
         cfg.strike = 2;
-        let w = if rng.chance(1, 4) { rng.range(1, 10) } else { rng.range(1, 200) };
+        let mut w = if rng.chance(1, 4) { rng.range(1, 10) } else { rng.range(1, 200) };
+        if rng.chance(1, 8) {
+            // very narrow blocks with overflow allowed: wide characters overflow one by one
+            cfg.overflow = true;
+            if rng.chance(1, 2) {
+                w = rng.range(1, 3);
+            } else {
+                cfg.max_wrap = Some(rng.range(1, 2));
+            }
+        }
         let id = cases.len();
         // the labelled model route (2) gives provenance for the decorated configurations
         cases.push(mk_case(id, 1, cfg, w, bytes, Some(2), g(""), if tables { "tables" } else { "flow" }));
@@ -1072,13 +1084,11 @@ fn check_c03(cases: &[Case], results: &[Option<RunResult>]) -> Vec<Violation> {
             .collect();
         // <sup> non-digit content is wrapped in ^{ }
         let has_sup = has_element(&dom, &["sup"]);
-        let out: Vec<char> = if has_sup {
-            let s: String = out.iter().collect();
-            s.replace("^{", "").replace('}', "").chars().collect()
-        } else {
-            out
-        };
-        let visn: Vec<char> = if has_sup { vis.iter().filter(|ch| **ch != '}').copied().collect() } else { vis.clone() };
+        // the "^{" "}" around non-digit superscripts may be wrapped apart (and interleaved with
+        // other cells): drop these three characters on both sides
+        let supch = |ch: &char| *ch == '^' || *ch == '{' || *ch == '}';
+        let out: Vec<char> = if has_sup { out.into_iter().filter(|ch| !supch(ch)).collect() } else { out };
+        let visn: Vec<char> = if has_sup { vis.iter().filter(|ch| !supch(ch)).copied().collect() } else { vis.clone() };
         let ordered = !has_table || c.spec.cfg.raw == 1;
         let ok = if ordered {
             out == visn
@@ -1210,14 +1220,78 @@ fn nontrivial_c03(_c: &Case, r: &RunResult) -> bool {
     out_lines(&r.outcome).map(|l| l.len() >= 2).unwrap_or(false)
 }
 
+/// C03 observable: the non-whitespace character stream.
+fn proj_nonspace(o: &Outcome) -> Outcome {
+    match o.text() {
+        // letters and combining marks only: prefixes, borders, decorator markup and footnote
+        // punctuation depend on where lines break, the document's own text does not
+        Some(t) => Outcome::Str(t.chars().filter(|c| c.is_alphabetic() || ('\u{300}'..='\u{36f}').contains(c)).collect()),
+        None => o.clone(),
+    }
+}
+/// C08 observable: the "[k]" references in output order and the trailing footnote block.
+fn proj_footnotes(o: &Outcome) -> Outcome {
+    match o.text() {
+        Some(t) => {
+            let t: String = t.chars().filter(|c| *c != '\u{336}').collect();
+            let lines: Vec<&str> = t.split('\n').collect();
+            let p = lines.iter().position(|l| l.starts_with("[1]: ")).unwrap_or(lines.len());
+            let body = nonspace(&lines[..p].join("\n"));
+            let bs: Vec<char> = body.chars().collect();
+            let mut refs = String::new();
+            let mut k = 0;
+            while k < bs.len() {
+                if bs[k] == '[' {
+                    let mut j = k + 1;
+                    let mut num = String::new();
+                    while j < bs.len() && bs[j].is_ascii_digit() {
+                        num.push(bs[j]);
+                        j += 1;
+                    }
+                    if !num.is_empty() && j < bs.len() && bs[j] == ']' {
+                        refs.push_str(&num);
+                        refs.push(',');
+                        k = j;
+                    }
+                }
+                k += 1;
+            }
+            // references as a multiset (side-by-side cells interleave lines); the list unwrapped
+            let mut rv: Vec<&str> = refs.split(',').filter(|x| !x.is_empty()).collect();
+            rv.sort();
+            Outcome::Str(format!("{}|{}", rv.join(","), lines[p..].concat()))
+        }
+        None => o.clone(),
+    }
+}
+/// C14 observable: each marker with the number of non-whitespace characters before it.
+fn proj_markers(o: &Outcome) -> Outcome {
+    match o {
+        Outcome::Lines(ls) => {
+            let mut s = String::new();
+            let mut count = 0usize;
+            for l in ls {
+                for e in l {
+                    match e {
+                        Elem::Frag(n) => s.push_str(&format!("{}@{};", n, count)),
+                        Elem::Str(t, _) => count += t.chars().filter(|ch| !ch.is_whitespace()).count(),
+                    }
+                }
+            }
+            Outcome::Str(s)
+        }
+        other => other.clone(),
+    }
+}
+
 pub fn prop_def3(id: &str) -> Option<PropDef> {
     match id {
-        "C03" => Some(PropDef { id: "C03", generate: gen_c03, check: check_c03, nontrivial: nontrivial_c03, project: ident, deadline_ms: 20000, check_model: Some(check_model_c03) }),
-        "C08" => Some(PropDef { id: "C08", generate: gen_c08, check: check_c08, nontrivial: nontrivial_c08, project: ident, deadline_ms: 20000, check_model: None }),
+        "C03" => Some(PropDef { id: "C03", generate: gen_c03, check: check_c03, nontrivial: nontrivial_c03, project: proj_nonspace, deadline_ms: 20000, check_model: Some(check_model_c03) }),
+        "C08" => Some(PropDef { id: "C08", generate: gen_c08, check: check_c08, nontrivial: nontrivial_c08, project: proj_footnotes, deadline_ms: 20000, check_model: None }),
         "C09" => Some(PropDef { id: "C09", generate: gen_c09, check: check_c09, nontrivial: nontrivial_c09, project: ident, deadline_ms: 20000, check_model: None }),
         "C12" => Some(PropDef { id: "C12", generate: gen_c12, check: check_c12, nontrivial: nontrivial_c12, project: ident, deadline_ms: 20000, check_model: None }),
         "C13" => Some(PropDef { id: "C13", generate: gen_c13, check: check_c13, nontrivial: nontrivial_c13, project: ident, deadline_ms: 20000, check_model: None }),
-        "C14" => Some(PropDef { id: "C14", generate: gen_c14, check: check_c14, nontrivial: nontrivial_c14, project: ident, deadline_ms: 20000, check_model: None }),
+        "C14" => Some(PropDef { id: "C14", generate: gen_c14, check: check_c14, nontrivial: nontrivial_c14, project: proj_markers, deadline_ms: 20000, check_model: None }),
         "C15" => Some(PropDef { id: "C15", generate: gen_c15, check: check_c15, nontrivial: nontrivial_c15, project: ident, deadline_ms: 20000, check_model: None }),
         other => crate::props4::prop_def4(other),
     }
